@@ -1,20 +1,68 @@
 /-
   C02 — Formatting a go.mod/go.work file preserves its meaning and is idempotent.
   Property theorems only; helper lemmas live in ModVerif/Proofs/Modfile*.lean.
-  Statements not yet proved are in lean/PENDING.md.
+  The three main statements (format_parse_syntax, format_idempotent, format_preserves_directives)
+  are not yet proved: their full statements and the staged plan are in lean/PENDING.md.
 -/
 import ModVerif.Model.Modfile.Work
+import ModVerif.Proofs.ModfilePrint
 namespace ModVerif.Props.C02
 open ModVerif ModVerif.Modfile
 
-/-- Non-vacuity: a file with every layout feature (comments before / suffix / inside a block / before
-    `)`, a blank line, quoting) is accepted, and formatting its tree, parsing the result and formatting
-    again gives the same bytes. -/
+/-- Stage (iv) of the plan, final step of `Format`: the output never ends in a blank line — it is not
+    a lone newline and does not end with two newlines.  (This is what makes the second `Format` of
+    `format_idempotent` leave the end of the file alone.) -/
+theorem format_no_trailing_blank_line (f : FileSyntax) :
+    format f ≠ [10] ∧ ∀ pre, format f ≠ pre ++ [10, 10] := by
+  have h := Proofs.ModfilePrint.trimTrailingBlank_not_blank (Printer.file {} f).bufRev
+  unfold format
+  generalize trimTrailingBlank (Printer.file {} f).bufRev = b at h
+  constructor
+  · intro hb
+    have : b = [10] := by
+      have := congrArg List.reverse hb
+      simpa using this
+    rw [this] at h
+    exact h (by simp [Proofs.ModfilePrint.EndsBlankRev])
+  · intro pre hb
+    have : b = 10 :: 10 :: pre.reverse := by
+      have := congrArg List.reverse hb
+      simpa using this
+    rw [this] at h
+    exact h (by simp [Proofs.ModfilePrint.EndsBlankRev])
+
+/-- The final trimming of `Format` is idempotent: applying it to an already trimmed buffer changes
+    nothing. -/
+theorem format_final_trim_idempotent (b : Bytes) :
+    trimTrailingBlank (trimTrailingBlank b) = trimTrailingBlank b :=
+  Proofs.ModfilePrint.trimTrailingBlank_idem b
+
+/-- `printer.trim` is idempotent (used before every newline and before every comment line). -/
+theorem printer_trim_idempotent (p : Printer) : p.trim.trim = p.trim :=
+  Proofs.ModfilePrint.trim_idem p
+
+/-- Non-vacuity of clause 1 and 2 on a file with every layout feature (comments before / suffix /
+    inside a block / before `)`, a blank line, quoting, CRLF): it is accepted; its formatted output
+    parses again to the same statement tokens; formatting that again gives the same bytes. -/
 example :
-    let x := B "// doc\nmodule  \"example.com/m\" // c\n\nrequire (\n\ta.b/c v1.0.0 // indirect\n\n\t// why\n\td.e/f   v1.2.3\n\t// tail\n)\n"
+    let x := B "// doc\r\nmodule  \"example.com/m\" // c\n\nrequire (\n\ta.b/c v1.0.0 // indirect\n\n\t// why\n\td.e/f   v1.2.3\n\t// tail\n)\n"
     (match parse (B "go.mod") x with
      | .ok t => (match parse (B "go.mod") (format t) with
-                 | .ok t' => decide (format t' = format t)
+                 | .ok t' => decide (format t' = format t ∧
+                                     t'.allLines.map (·.token) = t.allLines.map (·.token))
+                 | .error _ => false)
+     | .error _ => false) = true := by decide +kernel
+
+/-- Non-vacuity of clause 3 (directive values survive formatting), without and with the stub fixer, on
+    a file whose arguments get re-quoted and whose versions get canonicalised / fixed. -/
+example :
+    let x := B "module \"example.com/m\"\nrequire \"a.b/c\" v1\nreplace a.b/c => \"./x y\"\nretract [v1.0.0, v1.1]\n"
+    (match parseToFile (B "go.mod") x (some fixStub) true with
+     | .ok f => (match parseToFile (B "go.mod") (format f.syn) (some fixStub) true with
+                 | .ok g => decide (g.require.map (·.mod) = f.require.map (·.mod) ∧
+                                    g.replace.map (fun r => (r.old, r.new)) = f.replace.map (fun r => (r.old, r.new)) ∧
+                                    g.retract.map (·.interval) = f.retract.map (·.interval) ∧
+                                    f.retract.map (·.interval) = [{ low := B "v1.0.0", high := B "v1.1.0" }])
                  | .error _ => false)
      | .error _ => false) = true := by decide +kernel
 
